@@ -4,15 +4,15 @@ whose total score reaches the threshold, given the max-score pruning bound. -/
 namespace BiotiteModel.C10
 
 /-- total substitution score of the query symbols `qs` against the candidate symbols `ds` -/
-def pairScore (n : Nat) (mat : List Int) : List Nat → List Nat → Int
-  | q :: qs, d :: ds => mat[q * n + d]?.getD 0 + pairScore n mat qs ds
+def pairScore (m : Nat) (mat : List Int) : List Nat → List Nat → Int
+  | q :: qs, d :: ds => mat[q * m + d]?.getD 0 + pairScore m mat qs ds
   | _, _ => 0
 
 /-- the pruning bound: no candidate suffix can score more than the sum of the row maxima -/
-theorem pairScore_bound (n : Nat) (mat : List Int) (maxS : Nat → Int)
-    (hb : ∀ x y, y < n → mat[x * n + y]?.getD 0 ≤ maxS x) :
+theorem pairScore_bound (n m : Nat) (mat : List Int) (maxS : Nat → Int)
+    (hb : ∀ x y, y < n → mat[x * m + y]?.getD 0 ≤ maxS x) :
     ∀ (qs ds : List Nat), ds.length = qs.length → (∀ d ∈ ds, d < n) →
-      pairScore n mat qs ds ≤ (qs.map maxS).sum := by
+      pairScore m mat qs ds ≤ (qs.map maxS).sum := by
   intro qs
   induction qs with
   | nil => intro ds _ _; cases ds <;> simp [pairScore]
@@ -26,11 +26,11 @@ theorem pairScore_bound (n : Nat) (mat : List Int) (maxS : Nat → Int)
       have h2 := ih ds (by simpa using hl) (fun x hx => hd x (by simp [hx]))
       omega
 
-theorem bbSearch_spec (n : Nat) (mat : List Int) (maxS : Nat → Int) (thr : Int)
-    (hb : ∀ x y, y < n → mat[x * n + y]?.getD 0 ≤ maxS x) :
+theorem bbSearch_spec (n m : Nat) (mat : List Int) (maxS : Nat → Int) (thr : Int)
+    (hb : ∀ x y, y < n → mat[x * m + y]?.getD 0 ≤ maxS x) :
     ∀ (qs : List Nat) (score : Int) (ds : List Nat), (qs = [] → score ≥ thr) →
-      (ds ∈ bbSearch n mat maxS thr qs score ↔
-        ds.length = qs.length ∧ (∀ d ∈ ds, d < n) ∧ score + pairScore n mat qs ds ≥ thr) := by
+      (ds ∈ bbSearch n m mat maxS thr qs score ↔
+        ds.length = qs.length ∧ (∀ d ∈ ds, d < n) ∧ score + pairScore m mat qs ds ≥ thr) := by
   intro qs
   induction qs with
   | nil =>
@@ -48,7 +48,7 @@ theorem bbSearch_spec (n : Nat) (mat : List Int) (maxS : Nat → Int) (thr : Int
       · rename_i hge
         simp only [List.mem_map] at hmem
         obtain ⟨ds', hds', rfl⟩ := hmem
-        have hpre : qs = [] → score + mat[q * n + c]?.getD 0 ≥ thr := by
+        have hpre : qs = [] → score + mat[q * m + c]?.getD 0 ≥ thr := by
           intro hq; subst hq; simpa using hge
         obtain ⟨h1, h2, h3⟩ := (ih _ ds' hpre).1 hds'
         refine ⟨by simp [h1], ?_, ?_⟩
@@ -66,12 +66,12 @@ theorem bbSearch_spec (n : Nat) (mat : List Int) (maxS : Nat → Int) (thr : Int
         have hl' : ds'.length = qs.length := by simpa using hl
         have hd' : ∀ d ∈ ds', d < n := fun x hx => hd x (by simp [hx])
         simp only [pairScore] at hs
-        have hbound := pairScore_bound n mat maxS hb qs ds' hl' hd'
-        have hge : score + mat[q * n + c]?.getD 0 ≥ thr - (qs.map maxS).sum := by omega
+        have hbound := pairScore_bound n m mat maxS hb qs ds' hl' hd'
+        have hge : score + mat[q * m + c]?.getD 0 ≥ thr - (qs.map maxS).sum := by omega
         refine ⟨c, hc, ?_⟩
         simp only [hge, if_true, List.mem_map]
         refine ⟨ds', ?_, rfl⟩
-        have hpre : qs = [] → score + mat[q * n + c]?.getD 0 ≥ thr := by
+        have hpre : qs = [] → score + mat[q * m + c]?.getD 0 ≥ thr := by
           intro hq; subst hq; simpa using hge
         exact (ih _ ds' hpre).2 ⟨hl', hd', by omega⟩
 
@@ -89,8 +89,8 @@ theorem foldl_max_ge (l : List Int) : ∀ (init : Int), init ≤ l.foldl max ini
     · omega
     · exact h2 x hx
 
-theorem rowMax_bound (n : Nat) (mat : List Int) (x y : Nat) (hy : y < n) :
-    mat[x * n + y]?.getD 0 ≤ rowMax n mat x := by
+theorem rowMax_bound (m : Nat) (mat : List Int) (x y : Nat) (hy : y < m) :
+    mat[x * m + y]?.getD 0 ≤ rowMax m mat x := by
   unfold rowMax
   apply (foldl_max_ge _ _).2
   simp only [List.mem_map, List.mem_range]
